@@ -5,7 +5,7 @@ import torch
 from hypothesis import strategies as st
 
 from torchjd import mtl_backward
-from vlib import jdcheck, programs as P
+from vlib import jdcheck, large, programs as P
 from vlib.runner import Outcome, Part
 
 ID = "C02"
@@ -63,7 +63,9 @@ def _case(draw):
 
 def parts(tier):
     n = 5_000 if tier == "quick" else 100_000
-    return [Part("generated", "given", n=n, strategy=_case)]
+    return [Part("generated", "given", n=n, strategy=_case),
+            # shared Jacobians of 10^5 .. 10^7 entries (closed-form oracle): size-dependent paths in the pipeline
+            Part("large_trunk", "given", n=32 if tier == "quick" else 480, strategy=lambda: large.cases("mtl"))]
 
 
 def plan(case):
@@ -112,6 +114,8 @@ def expected_updates(prog, dual_cut, dual_full, shared, tasks):
 
 def run_case(case) -> Outcome:
     out = Outcome()
+    if case.get("kind") == "large":
+        return large.run(case, out)
     prog, spec, dtype = case["prog"], case["agg"], case["prog"]["dtype"]
     m = len(prog["losses"])
     dual_cut = P.run_dual(prog, cuts=prog["features"])
